@@ -195,3 +195,20 @@ def judge(case, im, mo):
 
 def signature(case, im, mo, v):
     return None
+
+
+def shrink(case):
+    import copy
+    for i in range(len(case['snu'])):
+        if len(case['snu']) > 2:
+            c = copy.deepcopy(case)
+            for k in ('snu', 'flux', 'flux2', 'err'):
+                del c[k][i]
+            yield c
+    for i in range(len(case['fnu'])):
+        if len(case['fnu']) > 2:
+            c = copy.deepcopy(case)
+            del c['fnu'][i]
+            del c['resp'][i]
+            if max(c['resp']) > 0:
+                yield c
